@@ -95,6 +95,14 @@ SCENARIOS: list[dict] = [
            "class B:\n    def __init__(self) -> None:\n        self.a = 0\n",
            "class B:\n    a: int = 0\n"],
      "U": ["from {D} import B\nclass C(B):\n    def __init__(self) -> None:\n        super().__init__(1)\nclass E(B):\n    pass\ne = E(1)\n"]},
+    {"name": "super-intermediate", "construct": "super() resolved through an intermediate base that later gains the method (visit_super_expr: edges for every base up to the defining one)",
+     "D": ["class A:\n    def f(self) -> object:\n        return 0\nclass B(A):\n    pass\n",
+           "class A:\n    def f(self) -> object:\n        return 0\nclass B(A):\n    def f(self) -> str:\n        return ''\n",
+           "class A:\n    def f(self) -> object:\n        return 0\nclass B(A):\n    pass\n",
+           "class A:\n    def f(self) -> object:\n        return 0\nclass B(A):\n    def f(self) -> int:\n        return 0\n",
+           "class A:\n    def f(self) -> str:\n        return ''\nclass B(A):\n    pass\n",
+           "class A:\n    pass\nclass B(A):\n    def f(self) -> object:\n        return 0\n"],
+     "U": ["from {D} import B\nclass C(B):\n    def g(self) -> None:\n        y = super().f()\n        y = 1\n"]},
     {"name": "import-as", "construct": "module attribute through `import as` (visit_name_expr / visit_member_expr on module refs)",
      "D": ["X: int = 1\ndef fn() -> int:\n    return 1\n", "X: str = ''\ndef fn() -> int:\n    return 1\n",
            "X = [1]\ndef fn() -> str:\n    return ''\n", "def fn() -> int:\n    return 1\n", "X: int = 1\n"],
@@ -107,8 +115,9 @@ SCENARIOS: list[dict] = [
      "U": ["from {M} import val\nval2 = val\n"],
      "V": ["import {U}\nz: int = {U}.val2\ndef f() -> int:\n    return {U}.val2\n"]},
     {"name": "star-import", "construct": "from m import * (wildcard trigger)",
-     "D": ["A: int = 1\nB: int = 2\n", "A: str = ''\nB: int = 2\n", "B: int = 2\n", "A: int = 1\nB: int = 2\n__all__ = ['B']\n",
-           "A: int = 1\nB: int = 2\nC: int = 3\n"],
+     "D": ["A: int = 1\nB: int = 2\n__all__ = ['A', 'B']\n", "A: int = 1\nB: int = 2\n__all__ = ['B']\n", "A: int = 1\nB: int = 2\n",
+           "A: str = ''\nB: int = 2\n", "B: int = 2\n", "A: int = 1\nB: int = 2\nC: int = 3\n",
+           "def A() -> int:\n    return 1\nB: int = 2\n__all__ = ['A', 'B']\n", "def A() -> int:\n    return 1\nB: int = 2\n__all__ = ['B']\n"],
      "M": ["from {D} import *\n"],
      "U": ["from {M} import A\nx: int = A\n"],
      "V": ["from {D} import *\ny: int = A + B\n"]},
@@ -221,6 +230,7 @@ class Instance:
         self.as_package = False               # {D}.py  ↦  {D}/__init__.py
         self.broken = False                   # syntax error appended to {D}
         self.touch = False
+        self.bump = {r: 0 for r in self.roles}     # trailing "# edit n" comment per module (content change, same semantics)
 
     def modname(self, role: str) -> str:
         n = self.names[role]
@@ -248,7 +258,7 @@ class Instance:
             elif r == "D":
                 out[f"{n}.py"] = self.text(r) + (SYNTAX_ERROR if self.broken else "")
             else:
-                out[f"{n}.py"] = self.text(r)
+                out[f"{n}.py"] = self.text(r) + (f"# edit {self.bump[r]}\n" if self.bump[r] else "")
         if self.pkg and "D" in self.roles and not self.present["D"]:
             out[f"{self.pkg}/__init__.py"] = ""
         if self.stub is not None and self.present["D"] and not self.pkg and not self.as_package:
@@ -261,7 +271,7 @@ def stubify(src: str) -> str:
     return src
 
 
-EDITS = ["variant", "variant", "variant", "variant", "variant", "mid-variant", "delete-definer", "restore-definer",
+EDITS = ["variant", "variant", "variant", "variant", "variant", "mid-variant", "edit-users", "delete-definer", "restore-definer",
          "add-stub", "remove-stub", "to-package", "from-package", "touch", "break-syntax", "fix-syntax", "delete-user",
          "restore-user"]
 
@@ -349,6 +359,16 @@ class CWorld:
                 if not inst.broken:
                     continue
                 inst.broken = False
+            elif kind == "edit-users":
+                # the using and middle modules of the instance change in the same step (not their meaning)
+                for r in inst.roles:
+                    if r != "D" and inst.present[r]:
+                        inst.bump[r] += 1
+                d["module"] = ",".join(inst.modname(r) for r in inst.roles if r != "D")
+                if rng.random() < 0.5 and inst.present["D"] and len(inst.sc["D"]) > 1:
+                    new = rng.choice([v for v in range(len(inst.sc["D"])) if v != inst.variant["D"]])
+                    d["also_variant"] = [inst.variant["D"], new]
+                    inst.variant["D"] = new
             elif kind == "delete-user":
                 users = [r for r in inst.roles if r in ("U", "V") and inst.present[r]]
                 if not users:
@@ -451,4 +471,20 @@ def packed_sweeps(rng=None, group: int = 10) -> list[tuple[str, list[dict]]]:
             if edits:
                 steps.append({"edits": edits, "files": files(), "touch": []})
         out.append((f"{'walk' if rng is None else 'shuffle'}-{g0 // group}", steps))
+    return out
+
+
+def entry_targets(steps: list[dict]) -> list[str]:
+    """Entry-point mode: only the top using modules (v*.py, else u*.py) are given to mypy; the rest is followed."""
+    import re
+    names = sorted({rel for st in steps for rel in st["files"]})
+    idx = sorted({re.sub(r"\D", "", n.split("/")[0].split(".")[0]) for n in names if re.match(r"^[uv]\d+\.py$", n)})
+    out = []
+    for i in idx:
+        out.append(f"v{i}.py" if f"v{i}.py" in names else f"u{i}.py")
+        if f"v{i}.py" in names and f"u{i}.py" in names:
+            # v does not always import u; keep u as a root too unless v imports it
+            vtxt = next((st["files"][f"v{i}.py"] for st in steps if f"v{i}.py" in st["files"]), "")
+            if f"u{i}" not in vtxt:
+                out.append(f"u{i}.py")
     return out
